@@ -17,7 +17,7 @@ func init() {
 	register(&Prop{
 		ID:         "C06",
 		Title:      "Condition, filter and key expressions evaluate per DynamoDB semantics",
-		Decided:    "the clauses that are visible in the shape of the code: (R1) the precedence table orders OR < AND < NOT < every comparator, NOT's operand and every infix operator's right operand are parsed at the operator's own level (left-associative), and the set of tokens with an infix handler equals the set with a precedence; (R2) in each comparator function (a switch over the operator string with the six comparator labels) the case for label c returns left ⊙ right with the Go operator that c denotes, operands in (left,right) order; (R3) BETWEEN is min <= v AND v <= max for each comparable type; (R4) exhaustiveness: Eval has a case for every node kind the condition parser can build, every registered infix token is handled, the function registry is exactly the six condition and two update functions with the right ForUpdate flags, the type-name table has the ten types and the comparable types are N, S, B; (R5) existence of an attribute is decided with the undefined test, never with the NULL type tag (a NULL-typed attribute exists); (R6) evaluating a condition reaches no object or environment mutator and never writes the caller's item; (R7) with a missing operand '=' is false and '<>' is true; (R8) two evaluator objects are compared by pointer identity only against the process-wide singletons (TRUE, FALSE, UNDEFINED) or when both are known booleans – an identity shortcut elsewhere makes two different missing operands equal and two equal numbers different; (R9) in the evaluators of IN and BETWEEN every use of the left operand's value in a comparison, equality or containment call is dominated by the not-undefined side of the undefined test of that value: a missing attribute makes the condition false, it never equals another missing attribute; (R10) the environment is filled with the stored item first and the request's expression attribute values second, in both interpreters' entry points: a stored attribute that happens to be named like a placeholder (\":owner\") cannot replace the value the request supplied; (R11) attribute_type, = and <> see the type an operand was written with only if the adapter keeps it: every member case of the SDK v2 → internal conversion applies to every value of that member and sets the member's own type field (= C10.R7b); (R12) the expression parsed before a binary operator is stored as the node's Left and the one parsed after it as Right, and the comparator functions receive Eval(node.Left) as their left and Eval(node.Right) as their right parameter (through helpers, operand records and dispatching methods).",
+		Decided:    "the clauses that are visible in the shape of the code: (R1) the precedence table orders OR < AND < NOT < every comparator, NOT's operand and every infix operator's right operand are parsed at the operator's own level (left-associative), and the set of tokens with an infix handler equals the set with a precedence; (R2) in each comparator function (a switch over the operator string with the six comparator labels) the case for label c returns left ⊙ right with the Go operator that c denotes, operands in (left,right) order; (R3) BETWEEN is min <= v AND v <= max for each comparable type; (R4) exhaustiveness: Eval has a case for every node kind the condition parser can build, every registered infix token is handled, the function registry is exactly the six condition and two update functions with the right ForUpdate flags, the type-name table has the ten types and the comparable types are N, S, B; (R5) existence of an attribute is decided with the undefined test, never with the NULL type tag (a NULL-typed attribute exists); (R6) evaluating a condition reaches no object or environment mutator and never writes the caller's item; (R7) with a missing operand '=' is false and '<>' is true; (R8) two evaluator objects are compared by pointer identity only against the process-wide singletons (TRUE, FALSE, UNDEFINED) or when both are known booleans – an identity shortcut elsewhere makes two different missing operands equal and two equal numbers different; (R9) in the evaluators of IN and BETWEEN every use of the left operand's value in a comparison, equality or containment call is dominated by the not-undefined side of the undefined test of that value: a missing attribute makes the condition false, it never equals another missing attribute; (R10) the environment is filled with the stored item first and the request's expression attribute values second, in both interpreters' entry points: a stored attribute that happens to be named like a placeholder (\":owner\") cannot replace the value the request supplied; (R11) attribute_type, = and <> see the type an operand was written with only if the adapter keeps it: every member case of the SDK v2 → internal conversion applies to every value of that member and sets the member's own type field (= C10.R7b); (R12) the expression parsed before a binary operator is stored as the node's Left and the one parsed after it as Right, and the comparator functions receive Eval(node.Left) as their left and Eval(node.Right) as their right parameter (through helpers, operand records and dispatching methods); (R13) begins_with(a, b) is decided by HasPrefix(a, b) – or len(a) >= len(b) && a[:len(b)] == b – and contains on S/B by Contains(a, b), operands in that order.",
 		NotDecided: "the truth value of an arbitrary expression on an arbitrary item: structural equality of documents, set semantics, IN, contains, size, begins_with results, independence from attribute order – all value-level.",
 		Rules: []RuleDef{
 			{ID: "R1", Desc: "precedence table and its use by the Pratt parser (T-TABLE)", Run: c06R1},
@@ -32,6 +32,7 @@ func init() {
 			{ID: "R10", Desc: "the request's values are loaded into the environment after the item: a placeholder is never shadowed by a stored attribute of the same name (T-DOM)", Run: c06R10},
 			{ID: "R11", Desc: "an operand keeps its type on the way into the engine: every SDK member case sets its own type field for every value (= C10.R7b)", Run: aliasRule("R11", c10R7, func(c string) bool { return strings.HasPrefix(c, "v2.") })},
 			{ID: "R12", Desc: "the comparator functions receive the evaluated left operand of the parsed comparison on the left and the right one on the right (T-FLOW, eval-of)", Run: c06R12},
+			{ID: "R13", Desc: "begins_with and contains on strings/binaries are the library prefix/substring predicates with the operands in order (or the explicit length-guarded comparison) (T-TABLE)", Run: c06R13},
 		},
 	})
 }
@@ -739,7 +740,100 @@ func c06R12(e *Engine) {
 			e.pass("R12", construct, e.pos(fn.Pos()), "left parameter ← Eval(node.Left), right parameter ← Eval(node.Right)")
 		}
 	}
-	e.minCount("R12", 5)
+	// BETWEEN: the range function receives (value, lower bound, upper bound) = the evaluated (Left, Range[0], Range[1]) of
+	// the node – the bounds are not exchanged, sorted or defaulted on the way
+	for _, fn := range e.funcs("lang") {
+		if fn.Parent() != nil {
+			continue
+		}
+		instrs(fn, func(in ssa.Instruction) {
+			c, ok := in.(*ssa.Call)
+			if !ok || c.Call.StaticCallee() == nil || len(c.Call.Args) != 3 {
+				return
+			}
+			g := c.Call.StaticCallee()
+			if !e.isRangeFunction(g, cfs) {
+				return
+			}
+			want := []string{"BetweenExpression.Left", "elem[0]-of field:BetweenExpression.Range", "elem[1]-of field:BetweenExpression.Range"}
+			okAll := true
+			var got []string
+			for i, a := range c.Call.Args {
+				os := e.originsEval(a)
+				got = append(got, strings.Join(os, "|"))
+				has, other := false, false
+				for _, o := range os {
+					if !strings.Contains(o, "eval-of") {
+						continue
+					}
+					if strings.Contains(o, want[i]) {
+						has = true
+					} else if strings.Contains(o, "BetweenExpression.") {
+						other = true
+					}
+				}
+				if !has || other {
+					okAll = false
+				}
+			}
+			if os.Getenv("MINICHECK_TRACE") != "" {
+				fmt.Println("TRACE between-flow", e.fname(fn), got)
+			}
+			e.check(okAll, "R12", e.fname(fn)+":between-operands", e.ipos(in), "the range comparison receives (value, lower, upper) = the evaluated (Left, Range[0], Range[1]) of the BETWEEN node – got (%s)", strings.Join(got, " ; "))
+		})
+	}
+	e.minCount("R12", 6)
+}
+
+// isRangeFunction: g combines two comparator calls over its three parameters (the function C06.R3 judges).
+func (e *Engine) isRangeFunction(g *ssa.Function, cfs map[*ssa.Function]*ssa.Parameter) bool {
+	if g == nil || g.Blocks == nil || len(g.Params) != 3 || e.fnRole(g) != "lang" {
+		return false
+	}
+	if _, isCmp := cfs[g]; isCmp {
+		return false
+	}
+	n := 0
+	instrs(g, func(in ssa.Instruction) {
+		c, ok := in.(*ssa.Call)
+		if !ok || isBuiltin(c) {
+			return
+		}
+		if c.Call.IsInvoke() {
+			if len(c.Call.Args) < 1 {
+				return
+			}
+			if _, isK := constString(c.Call.Args[0]); !isK {
+				return
+			}
+			for _, h := range e.callees(c) {
+				if comparatorForwarder(h, cfs) != nil {
+					n++
+					return
+				}
+			}
+			return
+		}
+		if len(c.Call.Args) < 1 {
+			return
+		}
+		if _, isK := constString(c.Call.Args[0]); !isK {
+			return // a dispatcher hands its own operator on; a range function names the operator
+		}
+		if h := c.Call.StaticCallee(); h != nil {
+			if _, isCmp := cfs[h]; isCmp {
+				n++
+			}
+			return
+		}
+		for _, h := range e.closuresOf(c.Call.Value, nil, 0) {
+			if _, isCmp := cfs[h]; isCmp {
+				n++
+				return
+			}
+		}
+	})
+	return n >= 2
 }
 
 // c06R12parser: the parser side of the operand flow. The node of a binary operator takes the expression parsed BEFORE the
@@ -1598,5 +1692,190 @@ func c06R10(e *Engine) {
 		default:
 			e.fail("R10", construct, e.pos(fn.Pos()), "the request's values are not loaded after the stored item: a stored attribute named like a placeholder (\":owner\") replaces the value the request supplied, and the condition is decided on the item's own data")
 		}
+	}
+}
+
+// c06R13: the string and binary predicates of the built-in functions. begins_with(a, b) is "b is a prefix of a" and
+// contains(a, b) on strings/binaries "b occurs in a": each is decided either by the library predicate with the operands
+// in that order, or – for the prefix test – by the explicit form len(a) >= len(b) && a[:len(b)] == b. A hand-written
+// variant that the rule cannot read as one of these is reported (a strict length comparison, which makes a value that
+// EQUALS the prefix not begin with it, is named).
+func c06R13(e *Engine) {
+	// which argument of a variadic built-in (or which parameter of a method) a value is taken from
+	var argOf func(fn *ssa.Function, v ssa.Value, depth int) int
+	argOf = func(fn *ssa.Function, v ssa.Value, depth int) int {
+		if depth > 8 {
+			return -1
+		}
+		v = strip(v)
+		switch x := v.(type) {
+		case *ssa.Parameter:
+			for i, p := range fn.Params {
+				if p == x && !(fn.Signature.Variadic() && i == len(fn.Params)-1) {
+					return i
+				}
+			}
+		case *ssa.UnOp:
+			if ia, ok := x.X.(*ssa.IndexAddr); ok {
+				if p, isP := strip(ia.X).(*ssa.Parameter); isP && p.Parent() == fn {
+					if n, isK := constInt(ia.Index); isK {
+						return int(n)
+					}
+				}
+			}
+			return argOf(fn, x.X, depth+1)
+		case *ssa.FieldAddr:
+			return argOf(fn, x.X, depth+1)
+		case *ssa.Field:
+			return argOf(fn, x.X, depth+1)
+		case *ssa.TypeAssert:
+			return argOf(fn, x.X, depth+1)
+		case *ssa.Extract:
+			return argOf(fn, x.Tuple, depth+1)
+		case *ssa.Call:
+			if x.Call.IsInvoke() && (x.Call.Method.Name() == "Inspect") {
+				return argOf(fn, x.Call.Value, depth+1)
+			}
+			if g := x.Call.StaticCallee(); g != nil && g.Name() == "Inspect" && len(x.Call.Args) == 1 {
+				return argOf(fn, x.Call.Args[0], depth+1)
+			}
+		case *ssa.Slice:
+			return argOf(fn, x.X, depth+1)
+		}
+		return -1
+	}
+	// the boolean a return delivers (through the bool->object helper)
+	boolOf := func(v ssa.Value) ssa.Value {
+		v = strip(v)
+		if c, ok := v.(*ssa.Call); ok && len(c.Call.Args) == 1 && isBoolType(c.Call.Args[0].Type()) {
+			return c.Call.Args[0]
+		}
+		return v
+	}
+	judge := func(fn *ssa.Function, b ssa.Value, lib []string, first, second int) (Verdict, string) {
+		switch x := b.(type) {
+		case *ssa.Call:
+			name := staticCalleeName(x)
+			for _, l := range lib {
+				if name == l {
+					a0, a1 := argOf(fn, x.Call.Args[0], 0), argOf(fn, x.Call.Args[1], 0)
+					if a0 == first && a1 == second {
+						return Pass, name + "(operand, pattern)"
+					}
+					return Fail, fmt.Sprintf("%s is applied to (argument %d, argument %d): the operands are swapped or not the function's own", name, a0, a1)
+				}
+			}
+		case *ssa.Phi:
+			// len(a) >= len(b) && a[:len(b)] == b
+			for i, ed := range x.Edges {
+				if c, isC := constBool(ed); isC && !c {
+					continue
+				}
+				var eq ssa.Value = ed
+				var sl *ssa.Slice
+				var other ssa.Value
+				switch y := eq.(type) {
+				case *ssa.BinOp:
+					if y.Op != token.EQL {
+						return Assumed, "not a recognised prefix form"
+					}
+					if s, ok := y.X.(*ssa.Slice); ok {
+						sl, other = s, y.Y
+					} else if s, ok := y.Y.(*ssa.Slice); ok {
+						sl, other = s, y.X
+					}
+				case *ssa.Call:
+					if staticCalleeName(y) == "bytes.Equal" {
+						if s, ok := y.Call.Args[0].(*ssa.Slice); ok {
+							sl, other = s, y.Call.Args[1]
+						} else if s, ok := y.Call.Args[1].(*ssa.Slice); ok {
+							sl, other = s, y.Call.Args[0]
+						}
+					}
+				}
+				if sl == nil || sl.Low != nil || sl.High == nil || argOf(fn, sl.X, 0) != first || argOf(fn, other, 0) != second {
+					return Assumed, "not a recognised prefix form"
+				}
+				// the guard on the edge: len(a) >= n with n = len(b) = the slice bound
+				for _, cd := range edgeFacts(x.Block().Preds[i], x.Block()) {
+					cd = normCond(cd)
+					bo, ok := cd.V.(*ssa.BinOp)
+					if !ok {
+						continue
+					}
+					op, l, r := bo.Op, bo.X, bo.Y
+					if !cd.Val {
+						op = negOp(op)
+					}
+					if la, isLen := lenOf(r); isLen && argOf(fn, la, 0) == first {
+						l, r = r, l
+						op = flipOp(op)
+					}
+					la, isLen := lenOf(l)
+					if !isLen || argOf(fn, la, 0) != first {
+						continue
+					}
+					_ = r
+					switch op {
+					case token.GEQ:
+						return Pass, "len(operand) >= len(pattern) && operand[:len(pattern)] == pattern"
+					case token.GTR:
+						return Fail, "the prefix test requires the operand to be strictly longer than the pattern: a value that equals the pattern does not begin with it"
+					}
+				}
+				return Assumed, "prefix comparison without a recognised length guard"
+			}
+		}
+		return Assumed, "not a recognised form"
+	}
+	n := 0
+	report := func(construct string, pos string, v Verdict, detail, what string) {
+		n++
+		switch v {
+		case Pass:
+			e.pass("R13", construct, pos, "%s decided by %s", what, detail)
+		case Fail:
+			e.fail("R13", construct, pos, "%s: %s", what, detail)
+		default:
+			e.undecided("R13", construct, pos, "%s: %s – only the library predicate with the operands in order, or the explicit length-guarded comparison, is read as the prefix/substring test", what, detail)
+		}
+	}
+	// begins_with
+	for _, fn := range e.builtinImpls("begins_with") {
+		kinds := 0
+		for _, r := range returnsOf(fn) {
+			b := boolOf(retVals(r)[0])
+			if !isBoolType(b.Type()) {
+				continue // an error object
+			}
+			if _, isC := constBool(b); isC {
+				continue
+			}
+			kinds++
+			v, detail := judge(fn, b, []string{"strings.HasPrefix", "bytes.HasPrefix"}, 0, 1)
+			report(fmt.Sprintf("%s:prefix-test#%d", e.fname(fn), kinds), e.ipos(r), v, detail, "begins_with")
+		}
+	}
+	// contains on strings and binaries: the Contains method of the types with tag S and B
+	g := e.newGuard()
+	for _, fn := range e.funcs("lang") {
+		if fn.Name() != "Contains" || fn.Signature.Recv() == nil {
+			continue
+		}
+		nt := namedOf(fn.Signature.Recv().Type())
+		if nt == nil || (g.tagOf[nt.Obj().Name()] != "S" && g.tagOf[nt.Obj().Name()] != "B") {
+			continue
+		}
+		for _, r := range returnsOf(fn) {
+			b := boolOf(retVals(r)[0])
+			if _, isC := constBool(b); isC {
+				continue
+			}
+			v, detail := judge(fn, b, []string{"strings.Contains", "bytes.Contains"}, 0, 1)
+			report(e.fname(fn)+":substring-test", e.ipos(r), v, detail, "contains")
+		}
+	}
+	if n < 4 {
+		e.fail("R13", "count:R13", "-", "only %d prefix/substring tests of the built-ins found (begins_with on S and B, contains on S and B expected)", n)
 	}
 }
